@@ -206,6 +206,9 @@ def run(tier, seed):
             sub = "%014d" % (20260930000000 + n)
             if n % 50 == 7:
                 sub = rng.pick(["", "."])
+                # without a run sub-directory the artifacts land in <o> itself: it must not be shared with another case
+                o = rng.pick(["nosub%d", "x/nosub%d", "./nosub%d/", scratch + "/absns%d"]) % n
+                parts = o.split("/")
             # what sits at <o>/latest from earlier runs: nothing, the link of a run that is still there, the link of
             # an erased run (--clear, upload, by hand), a file, an empty or a non-empty directory
             prev = rng.pick(["absent"] * 4 + ["live", "live", "dangling", "dangling", "dangling", "file", "emptydir", "fulldir"])
